@@ -1,7 +1,9 @@
 SPEC = {
-    "claimed": False,
+    "claimed": True,
     "gen": ["huffman"],
-    "theorems": [],
+    "theorems": ["C07_builtin_table", "C07_consts", "C07_builtin_wf", "C07_roundtrip", "C07_roundtrip_vec",
+                 "C07_spec", "C07_len", "C07_decoder_total", "C07_builtin_is_built",
+                 "C07_from_frequencies_total_refuted", "C07_nonvacuous"],
     "allowed_axioms": [],
     "extract": {
         "LibTw2.Model.Huffman": ["of_list", "compress", "compress_into_vec", "compressed_len", "compressed_len_bug",
